@@ -29,6 +29,7 @@ PROPS = {
         'level': 'proof',
         'trusted_base': COMMON_TB,
         'assumptions': [
+            "added after seeding round 5: the class-specific identifier contracts of C09 (GetHash / GetTxid / __hash__ of CTransaction, CMutableTransaction, CBlockHeader, CBlock and the element classes, each resolved through the live class, so an override added in a subclass is what gets verified) are verified in this check too; C02's own GetHash contracts target the base-class functions",
             'SHA-256 is an uninterpreted total function with 32-byte output (same symbol in code and spec)',
             'A_hash_injective is NOT assumed by any proved unit: the "differs exactly when" clause is proved for the hash preimages (full vs stripped serialisation); it carries over to the digests only for a collision-free hash',
             'elements of symbolic vin/vout sequences are modelled as instances of the immutable element class (from_txin/from_txout of such elements is the identity); copies made for mutable elements have equal field values',
@@ -88,6 +89,7 @@ PROPS = {
         'level': 'other',
         'trusted_base': COMMON_TB,
         'assumptions': [
+            "added after seeding round 5 (BOUNDED): the edit catalogue contains 'the same scriptSig sits in another input', asked directly after the signed input was verified; verify_signature_against_funding_tx runs VerifySignature against funding transactions with witness data",
             'OpenSSL signs and verifies; SHA-256 collision freedom (an edit that changes the reference digest is taken to '
             'invalidate the signature)',
             'the reference legacy signature hash of specs/sighash.py (written from the consensus algorithm) is the oracle for '
@@ -258,6 +260,7 @@ PROPS = {
         'level': 'other',
         'trusted_base': COMMON_TB,
         'assumptions': [
+            'added after seeding round 5: generated texts include witness programs with NON-ZERO padding bits under a valid checksum and foreign characters with a solved checksum; foreign_text_refused is judged by the reference classifier (refusal exactly for texts that are no address of the selected chain)',
             'PROVED (no longer assumed): bitcoin.segwit_addr.decode accepts exactly the strings satisfying the BIP173 predicate segwit_ok of specs/bech32.py and returns their version and program; the proof goes through the C11 contracts of bech32_decode, bech32_verify_checksum, bech32_polymod and the strict 5->8 regrouping, which are re-verified inside this check. The predicate itself is compared with the independent executable decoder of specs/addr.py on 400 generated addresses per run (BOUNDED).',
             'BOUNDED + ASSUMED at call sites: bitcoin.segwit_addr.encode of a version-0 program equals the reference encoder (rests on the assumed 8->5 regrouping contract of C11)',
             'BOUNDED: text round trip CBitcoinAddress(str(a)) and refusal of foreign/mutated text, 300 inputs per chain (rests on the bounded base58/bech32 codecs of C10/C11)',
@@ -328,6 +331,7 @@ PROPS = {
         'level': 'other',
         'trusted_base': COMMON_TB,
         'assumptions': [
+            'added after seeding round 5 (BOUNDED): insert_outpoint_is_bip37 - outpoint objects (mutable and immutable, indices up to 2^32-1) are inserted and found as hash + 32-bit little-endian index',
             "added after seeding round 4: generated filters carry hash-function counts above the constructor's cap (51, 60, 200), as can arrive from the wire",
             'BOUNDED + ASSUMED at call sites: MurmurHash3 = published MurmurHash3_x86_32 (reference in specs/bloom.py), 1500 generated (seed, data) pairs per run covering every length mod 4',
             'BOUNDED: bits set by insert = BIP37 schedule over the reference hash, contains after insert, empty and full (0xff) filters; constructor caps (float sizing); wire round trip incl. membership answers - 600 generated cases each',
@@ -347,6 +351,7 @@ PROPS = {
         'level': 'other',
         'trusted_base': COMMON_TB,
         'assumptions': [
+            'added after seeding round 5: the shortest strict-DER signatures (8 bytes) with the key recovered from them; every verdict is also requested from a freshly parsed copy of the key after ANOTHER key was parsed (keys are values)',
             'added after seeding round 3: verification under a well-sized public key that is NO curve point must be false for every digest and signature (the reference returns false; OpenSSL signals an error there, which must not be read as success) - part of verify_matches_reference; signatures_low_s_strict_der_many checks strict DER and low S on 12000 signatures per run (a defect confined to short-r signatures shows in about one of several hundred)',
             'OpenSSL (libssl via ctypes) performs every curve operation: no contract on Python source reaches it; CKey.__init__ '
             'is an ASSUMED contract at call sites',
@@ -371,6 +376,7 @@ PROPS = {
         'level': 'other',
         'trusted_base': COMMON_TB,
         'assumptions': [
+            'added after seeding round 5: messages that are not in a Unicode normal form (the signed bytes are the UTF-8 of the text as given)',
             'added after seeding round 3: VerifyMessage has no memory - each generated verdict is also requested directly after the same signature was verified with the genuine message, an altered message or for another address',
             'OpenSSL performs signing, recovery-id search and public-key recovery: outside any contract on Python source',
             'str.encode("utf-8") is an uninterpreted strict codec in the proof of BitcoinMessage.__init__',
@@ -410,6 +416,7 @@ PROPS = {
         'level': 'proof',
         'trusted_base': COMMON_TB,
         'assumptions': [
+            'the set-membership model of the double-spend / duplicate-txid proofs keys members by their serialisation, i.e. it ASSUMES __hash__ is consistent with __eq__ across the mutable and immutable classes (proved separately under C02/C09 by the __hash__ contracts); added after seeding round 5: the bounded full-rule unit draws the same outpoint through an immutable and a mutable object',
             'SHA-256 uninterpreted (same symbol in code and spec)',
             'C01/C02/C08/C15/C17 contracts (re-verified inside this check) used at call sites',
             'sets of txids / outpoints: abstract set model (keys = serialisations in insertion order; membership = some '
@@ -440,6 +447,7 @@ PROPS = {
         'level': 'proof',
         'trusted_base': COMMON_TB,
         'assumptions': [
+            "added after seeding round 5 (BOUNDED): check_pow_after_other_chain - the verdict under the selected chain after values around every chain's limit were checked under other chains (SelectParams history)",
             'int.bit_length(v) = k  <=>  2^(k-1) <= |v| < 2^k (assumed built-in contract, conformance-tested)',
             'struct.unpack("<I") of 4 bytes is their little-endian value (assumed built-in contract)',
             'Python int is a mathematical integer',
